@@ -78,6 +78,9 @@ func lineKind(raw string) (kind, name string) {
 	return "other", ""
 }
 
+// zeroPadRe splits "[sign]digits[(reg)]".
+var zeroPadRe = regexp.MustCompile(`^([+-]?)([0-9]+)(\s*\(.*)?$`)
+
 func parseImm(s string) (int32, bool) {
 	s = strings.TrimSpace(s)
 	if !decRe.MatchString(s) {
@@ -445,6 +448,11 @@ func format(rt *rapid.T, p *ref.Prog, feats map[string]bool) string {
 				if _, isImm := parseImm(ptxt); isImm && !strings.HasPrefix(ptxt, "-") && rapid.IntRange(0, 5).Draw(rt, "plus") == 0 {
 					ptxt = "+" + ptxt
 					feats["plus"] = true
+				}
+				if m := zeroPadRe.FindStringSubmatch(ptxt); m != nil && rapid.IntRange(0, 5).Draw(rt, "zeropad") == 0 {
+					// leading zeros: a decimal immediate (or offset) stays decimal
+					ptxt = m[1] + strings.Repeat("0", rapid.IntRange(1, 2).Draw(rt, "zeros")) + m[2] + m[3]
+					feats["zero-padded"] = true
 				}
 				parts[k] = ptxt
 			}
